@@ -519,6 +519,9 @@ def run(chk):
     if res:
         chk.guard("O15.3", c15.FACTORY, c15.reap, chk, *res)
         chk.guard("O15.4", c15.FACTORY, c15.orderable_sort, chk, *res)
+        # a controller that runs on an empty / drained FactoryPool reads its utilisation and allocation every interval: the
+        # aggregate over no children is the documented 1.0, not an exception that ends the service
+        chk.guard("O15.5", c15.FACTORY, c15.aggregation, chk, *res)
     # "indefinitely and without raising": Stepwise.run calls what the range table gives it for ANY supply >= 0, so the
     # table must cover [0, inf) without gaps (shared with C08)
     from . import c08
